@@ -292,10 +292,11 @@ fn corpus() -> &'static Vec<(String, Vec<u8>)> {
                 if let Ok(mut data) = std::fs::read(&p) {
                     // several windows of bigger files
                     if data.len() > 36_000 {
-                        let mid = data.len() / 2;
-                        // start at a message boundary if possible
-                        if ext == "dlt" {
-                            if let Some(off) = data[mid..].windows(4).position(|w| w == b"DLT\x01") {
+                        // windows starting at a message / line boundary at 1/4, 1/2 and 3/4 of the file
+                        for q in 1..4 {
+                            let mid = data.len() / 4 * q;
+                            let start = if ext == "dlt" { data[mid..].windows(4).position(|w| w == b"DLT\x01") } else { data[mid..].iter().position(|b| *b == b'\n').map(|p| p + 1) };
+                            if let Some(off) = start {
                                 v.push((ext.clone(), data[mid + off..std::cmp::min(data.len(), mid + off + 36_000)].to_vec()));
                             }
                         }
